@@ -125,7 +125,7 @@ pub fn gen_from_seed(gseed: u64, with_bug: bool, r: &mut Rng, scale: usize) -> B
                 "many-frames-high-layer" => *r.pick(&[2usize, 20]),
                 "many-tags" => *r.pick(&[10usize, 1000]),
                 "deflate-bomb" => 1,
-                "link-chain" => *r.pick(&[3usize, 40, 700]),
+                "link-chain" => *r.pick(&[3usize, 4, 5, 6, 40, 41, 700, 702]),
                 "many-palette-packets" => *r.pick(&[3usize, 300, 2000]),
                 "bomb-with-links" => *r.pick(&[1usize, 2]),
                 _ => 1,
@@ -590,7 +590,7 @@ fn special_items(ctx: &Ctx, prop: &str) -> Vec<(String, usize)> {
             for _ in 0..if q { 40 } else { 200 } {
                 v.push(("chunk-size-boundary".into(), 1));
             }
-            for n in if q { vec![5000usize] } else { vec![5000, 65_535] } {
+            for n in if q { vec![5000usize, 5003] } else { vec![5000, 5003, 65_532, 65_535] } {
                 v.push(("link-chain".into(), n));
             }
             for n in if q { vec![2000usize] } else { vec![2000, 20_000, 60_000] } {
@@ -623,7 +623,7 @@ fn special_items(ctx: &Ctx, prop: &str) -> Vec<(String, usize)> {
             for n in if q { vec![50usize] } else { vec![50, 2000] } {
                 v.push(("many-frames-high-layer".into(), n));
             }
-            for n in if q { vec![9000usize, 9000, 30_000, 30_000, 30_000, 30_000] } else { vec![9000, 9000, 30_000, 30_000, 65_535, 65_535, 65_535, 65_535] } {
+            for n in if q { vec![9000usize, 9001, 30_000, 30_001, 30_002, 30_003] } else { vec![9000, 9001, 30_000, 30_001, 30_002, 30_003, 65_532, 65_533, 65_534, 65_535] } {
                 v.push(("link-chain".into(), n));
             }
             for _ in 0..if q { 8 } else { 60 } {
